@@ -166,10 +166,16 @@ static int apply_event(int ev, int thorough) {
 	return 1;
 }
 
+/* focused alphabet (second exploration, deeper): node A only — three request sizes, answer, lost answer, tick.  Histories such as
+ * "X sent, tick, Y sent, Z held, tick, X's answer lost, Y answered" need seven steps */
+static const int FOCUS[6] = {RQ_NODETAB, RQ_BMRANGE, RQ_CONFIGX, -1 /* up(A,answer) */, -2 /* up(A,lost) */, -3 /* tick */};
+static int focus_event(int e) { int nr = n_rq(0); return FOCUS[e] >= 0 ? FOCUS[e] : FOCUS[e] == -1 ? 2 * nr + UP_MATCH : FOCUS[e] == -2 ? 2 * nr + UP_LOST : 2 * nr + 2 * UP_N; }
+static const char *focus_evname(int e) { g_thorough = 0; return evname(focus_event(e)); }
 static void c03_child(const void *job, size_t n) {
 	vs_dev_t devs[VS_MAXDEV]; int nd; size_t pl;
 	const uint8_t *p = job_parse(job, n, devs, &nd, &pl);
-	int thorough = p[0]; int len = p[1]; const uint8_t *ev = p + 2;
+	int focused = p[0] >> 1, thorough = focused ? 0 : (p[0] & 1); int len = p[1]; uint8_t evbuf[16]; const uint8_t *ev = p + 2;
+	if (focused) { for (int i = 0; i < len && i < 16; i++) evbuf[i] = (uint8_t) focus_event(p[2 + i]); ev = evbuf; }
 	g_thorough = thorough;
 	hx_child_begin(NULL, 0, 0, NULL, 0, 0);
 	if (hx_start_debug(0)) res_infra("start failed");
@@ -253,6 +259,10 @@ int c03_run(const char *tier) {
 	e2_spec_t s = { .harness = "c03.hist", .param = param, .nparam = 1, .nevents = n_events(thorough),
 	                .max_depth = d ? atoi(d) : (thorough ? 6 : 5), .label = "c03.hist", .evname = evname };
 	e2_explore(&s);
+	{ uint8_t fp[1] = {2}; e2_spec_t f = { .harness = "c03.hist", .param = fp, .nparam = 1, .nevents = 6, .max_depth = d ? atoi(d) : (thorough ? 10 : 7), .label = "c03.hist(focused: node A, 3 request sizes, answer, lost answer, tick)", .evname = focus_evname };
+	  e2_explore(&f); s.states += f.states; s.transitions += f.transitions; s.execs += f.execs; if (!f.exhaustive) s.exhaustive = 0; g_thorough = thorough;
+	  char fb[256]; size_t fo = 0; for (int i = 0; i <= f.depth_completed + 1 && i < 16; i++) fo += (size_t) snprintf(fb + fo, sizeof fb - fo, "%ld ", f.states_by_depth[i]);
+	  rep_note("c03.hist focused alphabet: 6 events, depth completed=%d, new states by depth: %s", f.depth_completed, fb); }
 	{ e1_spec_t es = { .harness = "c03.sched", .param = "", .nparam = 0, .bound = thorough ? 3 : 2, .label = "c03.sched two senders || receiver crediting answers" };
 	  e1_explore(&es); long ex = 0; for (int k = 0; k < 8; k++) ex += es.schedules_by_cost[k]; s.execs += ex; s.states += es.distinct_outcomes; s.transitions += es.choice_points; if (!es.exhaustive) s.exhaustive = 0;
 	  rep_note("c03.sched: bound=%d completed=%d schedules by cost=[%ld,%ld,%ld,%ld] distinct outcomes=%ld contended=%ld", es.bound, es.completed_bound, es.schedules_by_cost[0], es.schedules_by_cost[1], es.schedules_by_cost[2], es.schedules_by_cost[3], es.distinct_outcomes, es.contended_execs); }
